@@ -37,6 +37,9 @@ def suite_ok(wt):
 def one(src):
     prop = src.split('/')[3]
     k = os.path.basename(src).replace('ref', '')
+    if prop.startswith('R'):
+        # second round: worktrees /tmp/wt/R<nn>, stored as <prop>-r4..r6
+        prop, k = 'C' + prop[1:], str(int(k) + 3)
     name = '%s-r%s' % (prop, k)
     dest = '/verif/benign/%s' % name
     if os.path.isdir(dest):
@@ -56,7 +59,9 @@ def one(src):
             return name, 'REJECT demo fails on the unchanged tree (exit %d): %s' % (base.returncode, (base.stdout + base.stderr)[-300:])
         r = sh('git apply %s/patch.diff' % src, cwd=wt)
         if r.returncode:
-            return name, 'REJECT patch does not apply: ' + r.stderr[-300:]
+            r = sh('patch -p1 -s < %s/patch.diff' % src, cwd=wt)      # /repo moved on by a fix: commit meanwhile
+            if r.returncode:
+                return name, 'REJECT patch does not apply: ' + (r.stdout + r.stderr)[-300:]
         changed = sh('git diff --stat', cwd=wt).stdout
         mut = sh('/venv/bin/python %s' % demo, cwd=src, env=env, timeout=1200)
         if mut.returncode != 0:
@@ -85,7 +90,7 @@ def one(src):
 
 
 def main():
-    srcs = sorted(glob.glob('/tmp/wt/C*/out/ref*'))
+    srcs = sorted(glob.glob('/tmp/wt/C*/out/ref*') + glob.glob('/tmp/wt/R*/out/ref[0-9]'))
     if len(sys.argv) > 1:
         srcs = [s for s in srcs if any(a in s for a in sys.argv[1:])]
     with concurrent.futures.ThreadPoolExecutor(6) as ex:
